@@ -1,9 +1,11 @@
 """C19 History independence: initialisation-before-read, no argument mutation,
 thread independence of kernels, no hidden module state."""
 import ast
+import os
+import re
 
 from ..cfg import ENTRY, EXIT, Assume
-from ..core import (PYX_FILES, call_name, const_value,
+from ..core import (PYX_FILES, AnalysisIncomplete, Module, _canon_tree, base_name, call_name, const_value,
                     kwarg, names_loaded, params, target_names, u, walk_expr,
                     walk_local)
 from ..cykernel import Kernel, check_prange, norm_extent, subscript_dims
@@ -59,18 +61,176 @@ EXPLANATION = (
     'unmasked out=, Bcast receive, or the asserted running-offset fill idiom) '
     'on every path before any read; (D3) the Cython kernels store to each '
     'cell they update from its previous contents (`b[i] op= e` or `b[i] = '
-    'f(b[i])`) before that update (or allocate the buffer initialised); (D4) '
+    'f(b[i])`) before that update (or allocate the buffer initialised), and a buffer that '
+    'leaves the kernel (package helper that stores into it, raw pointer) is reported as undecided, '
+    'never as discharged (.callee); (D4) '
     'no public routine of the anchored modules (plus the clustering and MSM '
     'entry points) can store into storage reachable from one of its arguments '
     '(interprocedural may-alias/effects fixed point over the call graph) '
     'unless documented in place; (D5) prange iterations own disjoint output '
-    'cells; (D6) no function of the anchored modules writes module-level '
-    'state (global statements / module containers), and an attribute that a '
+    'cells and no floating-point scalar is an OpenMP reduction variable of a prange loop (the '
+    'grouping of the partial sums follows the thread count; .reduction); (D6) no function of the '
+    'library (all modules except the command line apps and the citation registry; .py and .pyx) writes '
+    'module-level state (global statements outside process-pool initialisers, module containers, '
+    'attributes of module-level functions / classes / imported modules), an attribute that a '
     'method fills lazily from other attributes of its object (memo / '
-    'cached_property) is reset by every method that writes those attributes. '
+    'cached_property) is reset by every method that writes those attributes - in the class itself, '
+    'its in-package bases and every in-package subclass whose objects inherit the memo - and the '
+    'mutable result of an lru_cache / cache function is never updated in place by a caller. '
+    'A .pyx file that the Cython front end refuses only because of cdef helper functions or global '
+    'statements is parsed with the adapters of this rule file (cdef functions as module functions). '
     'Uninitialised reads or '
     'mutation inside third-party calls are trusted to their documented '
     'contracts (that is what the transfer tables encode).')
+
+
+# ---------------------------------------------------------------------------
+# front-end extension (candidate for promotion to sa/pyxfront.py)
+#
+# sa/pyxfront.py adapts Cython's parse tree node type by node type and refuses a
+# whole module that contains a node type it has no adapter for; every rule of
+# this property then has nothing to look at (three of the anchors are .pyx
+# files).  Two constructs that are ordinary in a kernel module are adapted here
+# (parsing only - nothing is compiled, imported or run):
+#   * `cdef [inline] T f(T1 a, ...) [nogil]: body` -> FunctionDef with
+#     cy_cdef=True (cy_argtypes / cy_locals as for `def`; a pointer / array
+#     parameter is recorded with CyType.pointer=True).  The parameters and cdef
+#     locals of a C function are C locals of that call: thread-private, created
+#     per call.  From then on the helper is an ordinary module function for the
+#     inliner (sa/inline.py undoes "extract a private helper"), for the call
+#     graph of the effects analysis (D4) and for the kernel rules below, which
+#     are told what they do NOT see through (D3/D5 `.callee`).
+#   * `global n` / `nonlocal n` -> ast.Global / ast.Nonlocal; D6.module-state
+#     covers the .pyx anchors, so a module variable written by a kernel-module
+#     function is decided, not skipped.
+# A cpdef function, varargs, a body-less declaration, memoryview parameter types
+# and every other unknown node stay refused (ANALYSIS-INCOMPLETE as before).
+
+_X_NODES = ('CFuncDefNode', 'GlobalNode', 'NonlocalNode')
+
+
+class _Shim:
+    pass
+
+
+def _x_global(self, cy):
+    return ast.Global(names=[str(x) for x in cy.names])
+
+
+def _x_nonlocal(self, cy):
+    return ast.Nonlocal(names=[str(x) for x in cy.names])
+
+
+def _x_cfuncdef(self, cy):
+    from ..pyxfront import CyType
+    d = cy.declarator
+    indirect = False
+    while type(d).__name__ != 'CFuncDeclaratorNode':
+        if type(d).__name__ != 'CNameDeclaratorNode' and hasattr(d, 'base'):
+            d, indirect = d.base, True
+        else:
+            self._unsupported(cy)
+    if getattr(d, 'has_varargs', False) or getattr(cy, 'overridable', False) or \
+            getattr(d, 'overridable', False) or cy.body is None:
+        self._unsupported(cy)
+    sh = _Shim()
+    sh.args, sh.name, sh.star_arg, sh.starstar_arg = d.args, self._declname(d.base), None, None
+    sh.body, sh.pos = cy.body, cy.pos
+    fn = self.s_DefNode(sh)
+    for a in d.args:
+        if type(a.declarator).__name__ != 'CNameDeclaratorNode':     # T* p / T p[] / T& p
+            nm = self._declname(a.declarator)
+            t0 = fn.cy_argtypes.get(nm) or self.cytype(a.base_type)
+            t = CyType(t0.base, text=t0.text + '*')
+            t.pointer = True
+            fn.cy_argtypes[nm] = t
+    fn.cy_cdef = True
+    fn.cy_nogil = bool(getattr(d, 'nogil', False))
+    fn.cy_inline = 'inline' in (getattr(cy, 'modifiers', None) or [])
+    try:
+        fn.cy_return = None if indirect else self.cytype(cy.base_type)
+    except AnalysisIncomplete:
+        fn.cy_return = None
+    return fn
+
+
+def _adapter_x():
+    from .. import pyxfront
+
+    class AdapterX(pyxfront._Adapter):
+        pass
+    for name, f in (('s_GlobalNode', _x_global), ('s_NonlocalNode', _x_nonlocal), ('s_CFuncDefNode', _x_cfuncdef)):
+        if not hasattr(pyxfront._Adapter, name):          # once promoted, the front end's own adapter wins
+            setattr(AdapterX, name, f)
+    return AdapterX
+
+
+_INLINE_TAG = re.compile(r'^(.+)__i\d+$')
+
+
+def _type_inlined_bindings(repo, mod):
+    """sa/inline.py binds a non-trivial argument of an inlined helper to a temporary `<param>__iN` and copies
+    the helper's statements with its locals renamed `<local>__iN`.  When the helper is a cdef function those
+    are C locals of the declared type (thread-private, per call): the declarations are carried over to the
+    caller so that the kernel rules judge them as what they are."""
+    for fname, helpers in (getattr(repo, 'inlined', {}).get(mod.rel) or {}).items():
+        fn = mod.functions.get(fname)
+        if fn is None or not hasattr(fn, 'cy_locals'):
+            continue
+        cands = {}
+        for h in helpers:
+            hf = mod.functions.get(h)
+            if hf is None or not getattr(hf, 'cy_cdef', False):
+                continue
+            for p, t in list(hf.cy_argtypes.items()) + list(hf.cy_locals.items()):
+                cands.setdefault(p, {})[t.text] = t
+        if not cands:
+            continue
+        for n in ast.walk(fn):
+            if isinstance(n, ast.AnnAssign) and hasattr(n, 'cy_type') and isinstance(n.target, ast.Name):
+                fn.cy_locals.setdefault(n.target.id, n.cy_type)
+        for n in ast.walk(fn):
+            if isinstance(n, ast.Assign) and len(n.targets) == 1 and isinstance(n.targets[0], ast.Name):
+                nm = n.targets[0].id
+                m = _INLINE_TAG.match(nm)
+                if m and nm not in fn.cy_locals and nm not in fn.cy_argtypes and len(cands.get(m.group(1), ())) == 1:
+                    fn.cy_locals[nm] = next(iter(cands[m.group(1)].values()))
+
+
+def load_refused_pyx(repo):
+    """Parse again, with the adapters above, every .pyx file the front end refused ONLY because of a node type
+    adapted here, and put it through the same normalisation as every other module.  Returns the list of
+    files recovered; a file that is still refused keeps its original error (repo.mod raises it)."""
+    from .. import patterns, pyxfront
+    repo._load_pyx()
+    got = []
+    for rel in PYX_FILES:
+        if rel in repo.modules:
+            continue
+        err = str(dict(repo.errors).get(rel) or '')
+        if 'unsupported Cython construct' not in err or not any(t in err for t in _X_NODES):
+            continue
+        path = os.path.join(repo.root, rel)
+        try:
+            with open(path, encoding='utf-8') as f:
+                src = f.read()
+            tree = _adapter_x()(rel).module(pyxfront._cy_parse(path, rel))
+            ast.fix_missing_locations(tree)
+            tree = _canon_tree(tree)
+        except Exception:
+            continue
+        repo.errors = [x for x in repo.errors if x[0] != rel]
+        repo.modules[rel] = Module(rel, src, tree, 'pyx')
+        if rel not in repo.units:
+            repo.units.append(rel)
+        if os.environ.get('VERIF_NO_RENAME') != '1':
+            repo._normalise(rel)
+        patterns._shared.pop(id(repo), None)        # resolver / effects were built without this module
+        got.append(rel)
+    for rel in PYX_FILES:
+        if rel in repo.modules:
+            _type_inlined_bindings(repo, repo.modules[rel])
+    return got
 
 
 # ---------------------------------------------------------------------------
@@ -314,7 +474,13 @@ def d3_zero_first(ck, rule, mod, fn, fused):
         verdicts = [_stored_before(k, s, c, buf) for c in cells]
         bad = [w for v, w in verdicts if v == 'bad']
         unk = [w for v, w in verdicts if v == 'unknown']
-        if bad:
+        if bad and getattr(fn, 'cy_cdef', False) and buf in fn.cy_argtypes:
+            # a C helper is only reachable from this module: whether its callers store to the cell first
+            # is a fact about the call sites, which this rule does not relate to the helper's index
+            ck.missing(rule, '%s %s: cdef helper %s updates its parameter `%s` from the previous contents (%s); '
+                       'whether every caller stores to that cell first is not decided' % (
+                           mod.loc(s), u(s)[:80], q, buf, bad[0]))
+        elif bad:
             ck.bad(rule, mod, s, q, u(s),
                    'the kernel accumulates into caller-supplied `%s` (%s) without first storing '
                    'to that cell: the result depends on the previous contents of the buffer' % (buf, bad[0]))
@@ -322,6 +488,75 @@ def d3_zero_first(ck, rule, mod, fn, fused):
             ck.missing(rule, '%s %s: %s' % (mod.loc(s), u(s)[:80], unk[0]))
         else:
             ck.ok(rule, mod, s, u(s), verdicts[0][1])
+    return n
+
+
+# ---------------------------------------------------------------------------
+# D3 / D5 `.callee`: what the two kernel rules do not see through
+#
+# D3 and D5 read the statements of ONE kernel.  A typed buffer that leaves the
+# kernel - handed to a function of the package that stores into it (or, inside a
+# prange body, to any function of the package while the loop writes it), or
+# through a raw pointer `&buf[...]` - is updated / read where neither rule looks.
+# That is not a violation (the helper may well be right) but it must not be
+# HOLDS either: ANALYSIS-INCOMPLETE, naming the call.  Helpers the front end has
+# inlined never get here; numpy / libc / builtin callees are trusted to their
+# transfer tables like everywhere else in this property.
+
+def d35_callees(ck, mod, fn, fused):
+    res, ea = shared(ck.repo)
+    k = Kernel(mod, fn, fused)
+    q = fn.name
+    n = 0
+    for c in walk_local(fn):
+        if not isinstance(c, ast.Call):
+            continue
+        nm = call_name(c)
+        if nm == '__cy_addr__' and c.args:
+            b = base_name(c.args[0])
+            if b in k.buffers:
+                n += 1
+                ck.missing('C19.D3.zero-first.callee', '%s %s::%s: a raw pointer to the typed buffer `%s` is taken '
+                           '(`&%s`); stores and reads through it are outside the kernel rules' % (
+                               mod.loc(c), mod.rel, q, b, u(c.args[0])[:60]))
+            continue
+        passed = [(i, a.id) for i, a in enumerate(c.args) if isinstance(a, ast.Name) and a.id in k.buffers]
+        passed += [(kw.arg, kw.value.id) for kw in c.keywords
+                   if isinstance(kw.value, ast.Name) and kw.value.id in k.buffers]
+        if not passed or nm is None:
+            continue
+        if isinstance(c.func, ast.Name) and c.func.id in k.fi.rd.locals:
+            continue
+        t = res.resolve_dotted(mod.rel, nm)
+        if t is None or t.kind != 'func':
+            continue
+        callee = res.function_node(t)[1]
+        if callee is None:
+            continue
+        n += 1
+        ps = params(callee)
+        muts = ea.mutated_params(t.rel, t.qual)
+        stored = sorted({b for pos, b in passed
+                         if (ps[pos] if isinstance(pos, int) and pos < len(ps) else pos) in muts})
+        loop = next((a for a in _ancestors(mod, c, fn) if isinstance(a, ast.For) and getattr(a, 'cy_prange', False)), None)
+        where = '%s %s::%s `%s`' % (mod.loc(c), mod.rel, q, u(c)[:80])
+        if stored:
+            ck.missing('C19.D3.zero-first.callee', '%s: %s stores into the kernel\'s buffer %s; whether each cell is stored '
+                       'before it is updated from its previous contents is not decided across the call' % (
+                           where, nm, ', '.join(stored)))
+        if loop is not None:
+            written = {tg.value.id for s in walk_local(loop) if isinstance(s, (ast.Assign, ast.AugAssign))
+                       for tg in (s.targets if isinstance(s, ast.Assign) else [s.target])
+                       if isinstance(tg, ast.Subscript) and isinstance(tg.value, ast.Name)}
+            shared_bufs = sorted(set(stored) | ({b for _, b in passed} & written))
+            if shared_bufs:
+                ck.missing('C19.D5.prange.callee', '%s: inside prange(%s) the whole buffer %s is handed to %s while '
+                           'iterations write it; which cells the callee touches is not decided' % (
+                               where, u(loop.target), ', '.join(shared_bufs), nm))
+                continue
+        if not stored:
+            ck.ok('C19.D3.zero-first.callee', mod, c, u(c)[:80],
+                  '%s does not store into the buffer(s) it is handed (%s)' % (nm, ', '.join(b for _, b in passed)))
     return n
 
 
@@ -387,11 +622,98 @@ class _PrangeRecheck:
         return self._ck.check(cond, rule, mod, node, function, construct, detail_ok, detail_bad, witness)
 
 
+# ---------------------------------------------------------------------------
+# D5 `.reduction`: an in-place operator on a C scalar inside a prange body makes
+# the scalar an OpenMP reduction variable (Cython: "x += e" in prange ->
+# reduction(+:x)): every thread accumulates a private partial result and the
+# partial results are combined when the loop ends.  For an integer type that is
+# exact whatever the grouping; for a floating (or complex) type the grouping -
+# hence the rounding - follows the number of threads and the schedule: the
+# value after the loop is not a function of the arguments alone.  A scalar that
+# the same iteration stores plainly before it accumulates (`t = 0` ... `t += e`
+# ... `out[i] = t`) carries a per-iteration value; only its value AFTER the
+# loop would be the combined one.
+
+FLOAT_CTYPES = {'double', 'float', 'long double', 'floating', 'cython.floating', 'cython.double', 'cython.float',
+                'float complex', 'double complex', 'complex', 'long double complex'}
+INT_CTYPES = {'int', 'long', 'long long', 'short', 'char', 'bint', 'Py_ssize_t', 'size_t', 'ssize_t', 'ptrdiff_t',
+              'integral', 'cython.integral', 'cython.int', 'cython.long', 'cython.Py_ssize_t', 'cython.size_t'}
+
+
+def _ctype_class(text, fused, depth=3):
+    """'float' | 'int' | None for the text of a declared C scalar type (fused typedefs: all alternatives agree)."""
+    t = (text or '').strip()
+    if t.startswith('unsigned ') or t.startswith('signed '):
+        t = t.split(' ', 1)[1]
+    if t in FLOAT_CTYPES:
+        return 'float'
+    if t in INT_CTYPES:
+        return 'int'
+    leaf = t.split('.')[-1]
+    if re.match(r'^(npy_)?(float|double|longdouble|complex|cfloat|cdouble|clongdouble)\d*(_t)?$', leaf):
+        return 'float'
+    if re.match(r'^(npy_)?u?(int|intp|long|longlong|short|byte)\d*(_t)?$', leaf):
+        return 'int'
+    if t in fused and depth > 0:
+        kinds = {_ctype_class(a.text, fused, depth - 1) for a in fused[t]}
+        if len(kinds) == 1:
+            return kinds.pop()
+    return None
+
+
+def d5_reductions(ck, mod, fn, fused):
+    rule = 'C19.D5.prange.reduction'
+    fi = finfo(mod, fn)
+    q = fn.name
+    n = 0
+    types = dict(getattr(fn, 'cy_argtypes', {}))
+    types.update(getattr(fn, 'cy_locals', {}))
+    for loop in walk_local(fn):
+        if not (isinstance(loop, ast.For) and getattr(loop, 'cy_prange', False)):
+            continue
+        inner = [s for s in walk_local(loop) if s is not loop]
+        for s in inner:
+            if not (isinstance(s, ast.AugAssign) and isinstance(s.target, ast.Name)):
+                continue
+            n += 1
+            nm = s.target.id
+            t = types.get(nm)
+            kind = _ctype_class(t.text, fused) if t is not None and not t.is_buffer and not getattr(t, 'pointer', False) else None
+            what = '%s  [cdef %s %s; prange(%s)]' % (u(s), t.text if t is not None else '?', nm, u(loop.target))
+            plain = [p for p in inner if isinstance(p, (ast.Assign, ast.AnnAssign)) and getattr(p, 'value', None) is not None
+                     and nm in [x for tg in (p.targets if isinstance(p, ast.Assign) else [p.target]) for x in target_names(tg)]]
+            if any(fi.cfg.dominates(p, s) for p in plain):
+                after = [x for x in walk_local(fn) if isinstance(x, ast.Name) and x.id == nm and isinstance(x.ctx, ast.Load)
+                         and loop not in _ancestors(mod, x, fn) and fi.stmt(x) is not None
+                         and fi.cfg.reachable(loop, fi.stmt(x))]
+                if after and kind != 'int':
+                    ck.missing(rule, '%s %s: `%s` is re-initialised in every iteration but is also a reduction variable '
+                               'whose combined value is read after the loop (`%s`)' % (
+                                   mod.loc(s), what[:100], nm, u(mod.enclosing_stmt(after[0]))[:60]))
+                else:
+                    ck.ok(rule, mod, s, what, 'the iteration stores `%s` plainly before it accumulates: a per-iteration '
+                          'value, nothing of the combined value is read after the loop' % nm)
+                continue
+            if kind == 'int':
+                ck.ok(rule, mod, s, what, 'integer reduction: exact, the grouping of the partial results does not matter')
+            elif kind == 'float':
+                ck.bad(rule, mod, s, q, 'floating-point reduction over prange(%s) into `%s`' % (u(loop.target), nm),
+                       '`%s` inside the prange body makes the %s scalar `%s` an OpenMP reduction variable: each thread sums '
+                       'a private partial result and the partial results are combined at the end of the loop, so the '
+                       'rounding of the total follows the number of threads and the schedule - the value is not '
+                       'determined by the arguments alone.  Accumulate per owned cell (out[%s] += ...) and reduce '
+                       'sequentially' % (u(s), t.text, nm, u(loop.target)))
+            else:
+                ck.missing(rule, '%s %s: reduction variable of undeclared / unrecognised C type; whether the combination '
+                           'is exact is not decided' % (mod.loc(s), what[:120]))
+    return n
+
+
 def public_functions(mod):
     out = []
     for q, fn in mod.functions.items():
-        if '<locals>' in q:
-            continue
+        if '<locals>' in q or getattr(fn, 'cy_cdef', False):
+            continue        # a cdef function is not callable from Python: its callers are checked (interprocedurally)
         leaf = q.split('.')[-1]
         if leaf.startswith('_') and not (leaf.startswith('__') and leaf.endswith('__')):
             continue
@@ -509,12 +831,23 @@ CONTAINER_CTORS = ('dict', 'list', 'set', 'defaultdict', 'OrderedDict', 'deque',
 
 def d6_globals(ck, rels):
     rule = 'C19.D6.module-state'
+    res, _ = shared(ck.repo)
     allowed = {('enspara/util/load.py', '_init'): 'worker-side shared-array hand-over',
                ('enspara/util/parallel.py', 'pool_dense2d.<locals>.init'): 'worker-side shared-array hand-over',
                ('enspara/util/parallel.py', 'pool_sparse2d.<locals>.init'): 'worker-side shared-array hand-over'}
     n = 0
     for rel in rels:
         mod = ck.repo.mod(rel)
+        # role: a function whose only use in its module is `initializer=<name>` of a call (process pool) runs once
+        # per worker process, before any task, on the initargs of the very call that created the pool
+        for q, fn in mod.functions.items():
+            if (rel, q) in allowed or not any(isinstance(g, ast.Global) for g in walk_local(fn)):
+                continue
+            uses = [x for x in ast.walk(mod.tree) if isinstance(x, ast.Name) and x.id == fn.name
+                    and isinstance(x.ctx, ast.Load)]
+            if uses and all(isinstance(mod.parent.get(x), ast.keyword) and mod.parent.get(x).arg == 'initializer'
+                            for x in uses):
+                allowed[(rel, q)] = 'worker-side hand-over (only ever installed as initializer= of a process pool)'
         # module-level mutable containers
         containers = set()
         for s in mod.tree.body:
@@ -524,6 +857,12 @@ def d6_globals(ck, rels):
                 containers.update(target_names(s.targets[0]))
         # process-lifetime objects that can carry attributes: the module's own functions and classes
         holders = {q for q in list(mod.functions) + list(mod.classes) if '.' not in q}
+        # names bound by the module's import statements (package modules, third-party modules and what they export)
+        imported = {k for k, t in res.table(rel).items() if t is not None and t.kind in ('mod', 'ext', 'var')} \
+            if mod.kind == 'py' else set()
+        # module-level variables of another module of the package, imported by name
+        imported_vars = {k for k, t in res.table(rel).items() if t is not None and t.kind == 'var'} \
+            if mod.kind == 'py' else set()
         for q, fn in mod.functions.items():
             for g in walk_local(fn):
                 if isinstance(g, ast.Global):
@@ -543,12 +882,19 @@ def d6_globals(ck, rels):
                 if isinstance(s, (ast.Assign, ast.AugAssign)):
                     tg = s.targets[0] if isinstance(s, ast.Assign) else s.target
                     if isinstance(tg, ast.Subscript) and isinstance(tg.value, ast.Name) and \
-                            tg.value.id in containers and tg.value.id not in locs:
+                            tg.value.id in (containers | imported_vars) and tg.value.id not in locs:
                         n += 1
                         ck.bad(rule, mod, s, q, u(s), 'store into module-level container `%s`' % tg.value.id)
                     # f.attr = ... / Cls.attr[...] = ... : state parked on a module-level function or class object
                     b = tg
                     while isinstance(b, (ast.Subscript, ast.Attribute)):
+                        if isinstance(b, ast.Attribute) and isinstance(b.value, ast.Name) and b.value.id not in locs \
+                                and b.value.id not in holders and b.value.id in imported:
+                            n += 1
+                            ck.bad(rule, mod, s, q, u(s), 'store into an attribute of the imported module / object `%s`: '
+                                   'it is shared by the whole process, so what a call leaves there is visible to every '
+                                   'later call' % b.value.id)
+                            break
                         if isinstance(b, ast.Attribute) and isinstance(b.value, ast.Name) and b.value.id in holders \
                                 and b.value.id not in locs:
                             n += 1
@@ -558,7 +904,7 @@ def d6_globals(ck, rels):
                             break
                         b = b.value
                 if isinstance(s, ast.Call) and isinstance(s.func, ast.Attribute) and \
-                        isinstance(s.func.value, ast.Name) and s.func.value.id in containers and \
+                        isinstance(s.func.value, ast.Name) and s.func.value.id in (containers | imported_vars) and \
                         s.func.value.id not in locs and s.func.attr in MUTATING_METHODS:
                     n += 1
                     ck.bad(rule, mod, s, q, u(s), 'mutation of module-level container `%s`' % s.func.value.id)
@@ -1009,10 +1355,12 @@ def _attrs_read(mod, cls_methods, fn, expr_or_fn, me, depth=2):
     return out
 
 
-def _memo_fills(mod, cls, methods):
-    """[(attr A, method M, fill statement, sources)] of the class."""
+def _memo_fills(mod, cls, own, methods=None):
+    """[(attr A, method M, fill statement, sources, kind)] of the class: fills sit in its `own` methods; reads
+    through properties / methods of the same object are followed through `methods` (own + inherited)."""
     out = []
-    for fn in methods:
+    methods = methods if methods is not None else own
+    for fn in own:
         me = _receiver(fn)
         if me is None:
             continue
@@ -1095,10 +1443,18 @@ def _attr_writes(mod, fn, me, attrs):
     return out
 
 
+_METHOD_MOD = {}        # id(method FunctionDef) -> Module that defines it (methods of one object may come from several)
+
+
+def _mfi(mod, fn):
+    return finfo(_METHOD_MOD.get(id(fn), mod), fn)
+
+
 def _reset_nodes(mod, methods, fn, me, A, kind, depth=2):
     """CFG statements of method fn after which self.A is certainly fresh (stored, deleted, cache cleared,
-    or a method of the same object that always resets it was called)."""
-    fi = finfo(mod, fn)
+    or a method of the same object that always resets it was called).  `methods` is ordered base class
+    first: the last definition of a name is the one a call on the object reaches."""
+    fi = _mfi(mod, fn)
     out = []
     for s in walk_local(fn):
         hit = False
@@ -1134,7 +1490,7 @@ def _always_resets(mod, methods, fn, A, kind, depth=1):
     me = _receiver(fn)
     if me is None:
         return False
-    fi = finfo(mod, fn)
+    fi = _mfi(mod, fn)
     resets = _reset_nodes(mod, methods, fn, me, A, kind, depth)
     if not resets:
         return False
@@ -1152,65 +1508,359 @@ def _reinvoked(methods, ctor):
     return False
 
 
-def d6_derived_caches(ck, rels):
-    rule = 'C19.D6.derived-cache'
-    n = 0
+def _class_families(repo, res, rels):
+    """Classes of the scanned modules with their in-package bases: (classes, lineage, carriers, methods).
+    lineage(k) = k and its in-package ancestors, most derived first; carriers(k) = the classes whose objects
+    have k's methods (k and its descendants).  Bases outside the package (object, namedtuple(...),
+    sklearn mixins) contribute no methods that write attributes of this package's classes."""
+    from ..core import dotted
+    classes = {}
     for rel in rels:
-        mod = ck.repo.mod(rel)
+        mod = repo.mod(rel)
         for cq, cls in mod.classes.items():
-            methods = _methods(cls)
-            n += 1
-            fills = _memo_fills(mod, cls, methods)
-            if not fills:
-                ck.ok(rule, mod, cls, 'class %s' % cq,
-                      'no lazily filled / memoised attribute derived from other attributes of the object')
-                continue
-            for A, M, fill, src, kind in fills:
-                mq = '%s.%s' % (cq, M.name)
-                ck.analysed(mod, M)
-                writers = 0
-                for W in methods:
+            classes[(rel, cq)] = (mod, cls)
+    bases = {k: [] for k in classes}
+    for k, (mod, cls) in classes.items():
+        for b in cls.bases:
+            t = res.resolve_dotted(mod.rel, dotted(b) or '')
+            if t is not None and t.kind == 'class' and (t.rel, t.qual) in classes and (t.rel, t.qual) != k:
+                bases[k].append((t.rel, t.qual))
+    memo = {}
+
+    def lineage(k, depth=12):
+        if k in memo:
+            return memo[k]
+        out = [k]
+        if depth > 0:
+            for b in bases[k]:
+                for x in lineage(b, depth - 1):
+                    if x not in out:
+                        out.append(x)
+        memo[k] = out
+        return out
+    meths = {}
+    for k, (mod, cls) in classes.items():
+        meths[k] = _methods(cls)
+        for m in meths[k]:
+            _METHOD_MOD[id(m)] = mod
+    carriers = {k: [d for d in classes if k in lineage(d)] for k in classes}
+
+    def family_methods(d):
+        return [(k, m) for k in reversed(lineage(d)) for m in meths[k]]
+    return classes, carriers, meths, family_methods
+
+
+def d6_derived_caches(ck, rels):
+    """The writers of a source attribute are looked for in every class whose objects carry the memoised
+    attribute: the class that fills it, its in-package base classes and every in-package subclass (a mixin
+    that memoises `self.result_.x` is invalidated - or not - by the `fit` of the estimators that inherit it)."""
+    rule = 'C19.D6.derived-cache'
+    res, _ = shared(ck.repo)
+    classes, carriers, meths, family_methods = _class_families(ck.repo, res, rels)
+    n = 0
+    for key, (mod, cls) in classes.items():
+        rel, cq = key
+        n += 1
+        lookup = [m for _, m in family_methods(key)]
+        fills = _memo_fills(mod, cls, meths[key], lookup)
+        if not fills:
+            ck.ok(rule, mod, cls, 'class %s' % cq,
+                  'no lazily filled / memoised attribute derived from other attributes of the object')
+            continue
+        for A, M, fill, src, kind in fills:
+            mq = '%s.%s' % (cq, M.name)
+            ck.analysed(mod, M)
+            verdicts = {}        # id(write node) -> [stale on some carrier, W module, node, writer qualname, attr, text]
+            ctor_only = {}       # id(W) -> (W module, W, writer qualname)
+            for d in carriers[key]:
+                fam = family_methods(d)
+                methods = [m for _, m in fam]
+                for (wrel, wcq), W in fam:
                     me = _receiver(W)
                     if me is None or W is M:
                         continue
                     ws = _attr_writes(mod, W, me, src)
                     if not ws:
                         continue
+                    wmod = _METHOD_MOD[id(W)]
+                    wq = '%s.%s' % (wcq, W.name)
                     if W.name in CONSTRUCTORS and not _reinvoked(methods, W):
-                        ck.ok(rule, mod, W, 'self.%s cached in %s / writes in %s.%s' % (A, M.name, cq, W.name),
-                              'the constructor runs on a fresh object (no method re-invokes it): nothing is cached yet')
+                        ctor_only.setdefault(id(W), (wmod, W, wq))
                         continue
-                    fi = finfo(mod, W)
-                    resets = _reset_nodes(mod, methods, W, me, A, kind)
+                    fi = _mfi(wmod, W)
+                    resets = _reset_nodes(wmod, methods, W, me, A, kind)
                     raises = [x for x in fi.cfg.nodes if isinstance(x, ast.Raise)]
                     for w, b, text in ws:
-                        writers += 1
                         st = fi.stmt(w)
-                        wq = '%s.%s' % (cq, W.name)
+                        v = verdicts.setdefault(id(w), [False, wmod, w, wq, b, text, d])
                         if st is None:
-                            ck.missing(rule, 'write `%s` of %s not located in the CFG' % (text[:80], wq))
+                            v[0] = None if v[0] is False else v[0]
                             continue
                         stale = st not in resets and \
                             (st is ENTRY or fi.cfg.reachable(ENTRY, st, avoiding=resets)) and \
                             fi.cfg.reachable(st, EXIT, avoiding=resets + raises)
-                        ck.check(not stale, rule, mod, w, wq,
-                                 'self.%s (cached in %s from self.%s) <- %s' % (A, M.name, b, text[:120]),
-                                 'every path through this write of self.%s also resets the cached self.%s' % (b, A),
-                                 '%s fills self.%s once from self.%s (%s: `%s`) and keeps it; %s writes self.%s '
-                                 'without resetting self.%s on some path, so a later read of self.%s depends on '
-                                 'whether it had been read before this call - two objects with identical '
-                                 'contents answer differently depending on their call history'
-                                 % (mq, A, ', self.'.join(sorted(src)), kind,
-                                    (u(fill) if not isinstance(fill, (ast.FunctionDef, ast.AsyncFunctionDef))
-                                     else '@' + ' @'.join(_decorators(fill)))[:100], wq, b, A, A))
-                if not writers:
-                    ck.ok(rule, mod, fill, 'self.%s cached in %s' % (A, mq),
-                          'no method writes its sources self.%s after construction' % ', self.'.join(sorted(src)))
+                        if stale and v[0] is not True:
+                            v[0], v[6] = True, d
+            for wid, (wmod, W, wq) in ctor_only.items():
+                if not any(v[3] == wq for v in verdicts.values()):
+                    ck.ok(rule, wmod, W, 'self.%s cached in %s / writes in %s' % (A, M.name, wq),
+                          'the constructor runs on a fresh object (no method re-invokes it): nothing is cached yet')
+            for stale, wmod, w, wq, b, text, d in verdicts.values():
+                if stale is None:
+                    ck.missing(rule, 'write `%s` of %s not located in the CFG' % (text[:80], wq))
+                    continue
+                via = '' if d == key else ' (objects of %s inherit %s from %s)' % (d[1], M.name, cq)
+                ck.check(not stale, rule, wmod, w, wq,
+                         'self.%s (cached in %s from self.%s) <- %s' % (A, M.name, b, text[:120]),
+                         'every path through this write of self.%s also resets the cached self.%s' % (b, A),
+                         '%s fills self.%s once from self.%s (%s: `%s`) and keeps it; %s writes self.%s '
+                         'without resetting self.%s on some path%s, so a later read of self.%s depends on '
+                         'whether it had been read before this call - two objects with identical '
+                         'contents answer differently depending on their call history'
+                         % (mq, A, ', self.'.join(sorted(src)), kind,
+                            (u(fill) if not isinstance(fill, (ast.FunctionDef, ast.AsyncFunctionDef))
+                             else '@' + ' @'.join(_decorators(fill)))[:100], wq, b, A, via, A))
+            if not verdicts:
+                ck.ok(rule, mod, fill, 'self.%s cached in %s' % (A, mq),
+                      'no method writes its sources self.%s after construction' % ', self.'.join(sorted(src)))
     return n
+
+
+# ---------------------------------------------------------------------------
+# D6 (function level): a memoised function hands the SAME object to every caller
+#
+# functools.lru_cache / cache keep the first object computed for a key for the
+# life of the process and return that very object to every later call with an
+# equal key.  That is invisible as long as the object is immutable (numbers,
+# strings, tuples of those); a mutable result (ndarray, list, dict, matrix)
+# that any caller then updates in place is handed to the next caller in its
+# UPDATED state - the next result depends on what earlier callers did with
+# theirs.  Decided by def-use at every call site in the package: the result
+# bound to a local that is stored into / updated in place -> VIOLATION naming
+# the store; a result that is returned, parked in an attribute or container,
+# or passed to a callee outside numpy's pure vocabulary -> ANALYSIS-INCOMPLETE
+# (the object is shared beyond what this rule follows); only read -> fine.  A
+# memoised public function with a mutable result and no caller in the package
+# hands the shared object to the user: INCOMPLETE.
+
+_IMMUTABLE_CALLS = {'int', 'float', 'bool', 'str', 'len', 'complex', 'frozenset', 'hash', 'abs', 'round', 'min', 'max',
+                    'sum', 'repr', 'bytes', 'np.float64', 'np.int64', 'np.float32', 'np.int32', 'np.bool_'}
+
+
+def _immutable_value(e, pnames, depth=6):
+    """The expression certainly evaluates to an immutable object (given hashable parameters)."""
+    if depth <= 0 or e is None:
+        return e is None
+    if isinstance(e, ast.Constant):
+        return True
+    if isinstance(e, ast.Name):
+        return e.id in pnames or e.id in ('True', 'False', 'None')
+    if isinstance(e, ast.Tuple):
+        return all(_immutable_value(x, pnames, depth - 1) for x in e.elts)
+    if isinstance(e, ast.Compare):
+        return all(_immutable_value(x, pnames, depth - 1) for x in [e.left] + list(e.comparators))
+    if isinstance(e, ast.BoolOp):
+        return all(_immutable_value(x, pnames, depth - 1) for x in e.values)
+    if isinstance(e, ast.UnaryOp):
+        return _immutable_value(e.operand, pnames, depth - 1)
+    if isinstance(e, ast.BinOp):
+        return _immutable_value(e.left, pnames, depth - 1) and _immutable_value(e.right, pnames, depth - 1)
+    if isinstance(e, ast.IfExp):
+        return _immutable_value(e.body, pnames, depth - 1) and _immutable_value(e.orelse, pnames, depth - 1)
+    if isinstance(e, ast.Call):
+        cn = call_name(e) or ''
+        if cn in _IMMUTABLE_CALLS or cn.startswith('math.'):
+            return True
+        if cn == 'tuple' and len(e.args) == 1 and isinstance(e.args[0], (ast.GeneratorExp, ast.ListComp)):
+            return _immutable_value(e.args[0].elt, pnames, depth - 1)
+        if isinstance(e.func, ast.Attribute) and e.func.attr == 'item':
+            return True
+    return False
+
+
+def _shared_result_uses(mod, g, call):
+    """[(verdict, node, text)] for one call of a memoised function inside function g:
+    'store' (the shared object is updated in place), 'escape' (it leaves what is followed), 'read'."""
+    fi = finfo(mod, g)
+    out = []
+
+    def classify_use(x):
+        """x: an expression node that denotes the shared object."""
+        p = mod.parent.get(x)
+        st = mod.enclosing_stmt(x)
+        if isinstance(p, ast.Subscript) and p.value is x:
+            if isinstance(p.ctx, (ast.Store, ast.Del)):
+                return [('store', st, u(st))]
+            if isinstance(mod.parent.get(p), ast.AugAssign) and mod.parent.get(p).target is p:
+                return [('store', st, u(st))]
+            return classify_use(p) if _is_view_index(p) else [('read', st, u(st))]
+        if isinstance(p, ast.AugAssign) and p.target is x:
+            return [('store', st, u(st))]
+        if isinstance(p, ast.Attribute) and p.value is x:
+            pp = mod.parent.get(p)
+            if isinstance(pp, ast.Call) and pp.func is p:
+                if p.attr in MUTATING_METHODS:
+                    return [('store', st, u(st))]
+                return [('read', st, u(st))]
+            if isinstance(p.ctx, ast.Store):
+                return [('store', st, u(st))]
+            return [('read', st, u(st))]
+        if isinstance(p, ast.keyword) and p.arg == 'out':
+            return [('store', st, u(st))]
+        if isinstance(p, (ast.Call, ast.keyword)):
+            c = p if isinstance(p, ast.Call) else mod.parent.get(p)
+            cn = call_name(c) or ''
+            if cn in MUTATING_FUNCS_ARG0 and c.args and c.args[0] is x:
+                return [('store', st, u(st))]
+            if cn.split('.')[0] in ('np', 'numpy', 'scipy', 'math') or cn in _IMMUTABLE_CALLS or cn in (
+                    'list', 'tuple', 'sorted', 'set', 'dict', 'enumerate', 'zip', 'range', 'print', 'isinstance', 'type'):
+                return [('read', st, u(st))]
+            return [('escape', st, u(st))]
+        if isinstance(p, ast.Return) or isinstance(p, (ast.Yield, ast.YieldFrom)):
+            return [('escape', st, u(st))]
+        if isinstance(p, (ast.Tuple, ast.List, ast.Dict, ast.Set, ast.Starred)):
+            return [('escape', st, u(st))]
+        if isinstance(p, (ast.Assign, ast.AnnAssign)) and p.value is x:
+            tgs = p.targets if isinstance(p, ast.Assign) else [p.target]
+            res_ = []
+            for t in tgs:
+                if isinstance(t, ast.Name):
+                    for y in walk_local(g):
+                        if isinstance(y, ast.Name) and y.id == t.id and isinstance(y.ctx, ast.Load):
+                            try:
+                                sites = fi.defs_of_use(y)
+                            except Exception:
+                                sites = ()
+                            if any(s_ is p for s_ in sites):
+                                res_ += classify_use(y)
+                        elif isinstance(y, ast.AugAssign) and isinstance(y.target, ast.Name) and y.target.id == t.id:
+                            res_.append(('store', y, u(y)))
+                else:
+                    res_.append(('escape', st, u(st)))
+            return res_ or [('read', st, u(st))]
+        return [('read', st, u(st))]
+
+    def _is_view_index(sub):
+        sl = sub.slice
+        dims = sl.elts if isinstance(sl, ast.Tuple) else [sl]
+        return any(isinstance(d, ast.Slice) for d in dims)
+
+    out += classify_use(call)
+    return out
+
+
+# callables whose result is read from state outside the process (file contents, directory listings, the clock, the
+# environment) or from a process-wide random stream: not a function of the arguments a memo is keyed on
+EXTERNAL_STATE_READERS = {
+    'open', 'io.open', 'mdtraj.open', 'mdtraj.load', 'mdtraj.load_frame', 'mdtraj.iterload', 'mdtraj.load_topology',
+    'numpy.load', 'numpy.loadtxt', 'numpy.fromfile', 'numpy.genfromtxt', 'numpy.memmap', 'pickle.load', 'json.load',
+    'tables.open_file', 'h5py.File', 'os.stat', 'os.listdir', 'os.scandir', 'os.path.getsize', 'os.path.getmtime',
+    'os.path.exists', 'os.path.isfile', 'os.path.isdir', 'glob.glob', 'glob.iglob', 'time.time', 'time.perf_counter',
+    'os.getenv', 'os.getpid', 'scipy.io.mmread', 'scipy.io.loadmat', 'scipy.sparse.load_npz'}
+EXTERNAL_STATE_PREFIXES = ('numpy.random.', 'random.', 'mdtraj.load', 'mdtraj.formats.')
+
+
+def _external_reads(res, mod, fn):
+    """[(call node, full dotted name)]: calls in fn (nested defs included) that read state outside the arguments."""
+    out = []
+    for c in ast.walk(fn):
+        if not isinstance(c, ast.Call):
+            continue
+        nm = call_name(c)
+        if not nm:
+            continue
+        t = res.resolve_dotted(mod.rel, nm)
+        full = t.ext if t is not None and t.kind == 'ext' else (nm if t is None else None)
+        if full is None:
+            continue
+        full = re.sub(r'^np\.', 'numpy.', re.sub(r'^md\.', 'mdtraj.', full))
+        if full in EXTERNAL_STATE_READERS or full.startswith(EXTERNAL_STATE_PREFIXES):
+            out.append((c, full))
+    return out
+
+
+def d6_memoised_functions(ck, mods):
+    from ..resolve import enclosing_class
+    rule = 'C19.D6.memoised-function'
+    res, _ = shared(ck.repo)
+    mods = [m for m in mods if m.kind == 'py']
+    memo = []
+    for mod in mods:
+        for q, fn in mod.functions.items():
+            decs = [d for d in _decorators(fn) if d in MEMO_DECORATORS and 'property' not in d]
+            if decs:
+                memo.append((mod, q, fn, decs))
+    if not memo:
+        for mod in mods:
+            ck.ok(rule, mod, None, 'functions of %s' % mod.rel, 'no function is wrapped in lru_cache / cache')
+        return len(mods)
+    for mod, q, fn, decs in memo:
+        ck.analysed(mod, fn)
+        fi = finfo(mod, fn)
+        pnames = set(params(fn))
+        ext = _external_reads(res, mod, fn)
+        if ext:
+            c, full = ext[0]
+            ck.bad(rule, mod, c, q, 'memoised %s reads state outside its arguments through %s' % (q, full),
+                   '%s is wrapped in @%s, i.e. its first answer per argument tuple is kept for the life of the process, but '
+                   '`%s` reads %s: the answer is a function of that outside state at the time of the FIRST call - a later '
+                   'call with the same arguments returns it even when the file / directory / clock / stream has moved on, '
+                   'so the result depends on the call history, not on the arguments and the current state alone'
+                   % (q, decs[0], u(c)[:80], 'a process-wide random stream' if 'random' in full else
+                      'the file system / environment'))
+            continue
+        rets = [r for r in walk_local(fn) if isinstance(r, ast.Return) and r.value is not None]
+        vals = []
+        for r in rets:
+            try:
+                vals.append(fi.expand(r.value))
+            except Exception:
+                vals.append(r.value)
+        if rets and all(_immutable_value(v, pnames) for v in vals):
+            ck.ok(rule, mod, fn, '@%s %s' % (decs[0], q), 'every returned value is immutable: sharing it between callers is invisible')
+            continue
+        uses = []
+        ncalls = 0
+        for m2 in mods:
+            for q2, g in m2.functions.items():
+                cls = enclosing_class(m2, g)
+                for c in walk_local(g):
+                    if not isinstance(c, ast.Call):
+                        continue
+                    t = res.resolve_call(m2, c, cls)
+                    if t is None or t.kind != 'func' or (t.rel, t.qual) != (mod.rel, q):
+                        continue
+                    ncalls += 1
+                    uses += [(v, m2, q2, node, text) for v, node, text in _shared_result_uses(m2, g, c)]
+        stores = [x for x in uses if x[0] == 'store']
+        escapes = [x for x in uses if x[0] == 'escape']
+        for v, m2, q2, node, text in stores:
+            ck.bad(rule, m2, node, q2, 'in-place update of the object the memoised %s returned' % q,
+                   '%s is wrapped in @%s: the cache keeps the object of the first call per key and hands that very object '
+                   'to every later caller; `%s` in %s updates it in place, so the next call with the same arguments '
+                   'returns the UPDATED object - its result depends on what earlier callers did, not on its '
+                   'arguments alone.  Return a copy (or do not memoise a mutable result)' % (q, decs[0], text[:100], q2))
+        if stores:
+            continue
+        if escapes:
+            v, m2, q2, node, text = escapes[0]
+            ck.missing(rule, '%s %s::%s: the mutable result of the memoised %s is shared by all callers and leaves %s '
+                       'through `%s`; whether somebody updates it in place is not decided' % (
+                           m2.loc(node), m2.rel, q2, q, q2, text[:80]))
+        elif not ncalls:
+            ck.missing(rule, '%s %s::%s is wrapped in @%s and returns a mutable object that every caller shares; no call '
+                       'site in the package to decide whether it is updated in place' % (mod.loc(fn), mod.rel, q, decs[0]))
+        else:
+            ck.ok(rule, mod, fn, '@%s %s' % (decs[0], q), 'the shared result is only read at its %d call sites' % ncalls)
+    return len(mods)
 
 
 def check(ck):
     repo = ck.repo
+    for rel in load_refused_pyx(repo):
+        ck.assume('%s was refused by the Cython front end only for cdef helper functions / global statements; it is '
+                  'analysed through the adapters of this rule file (cdef functions as module functions whose '
+                  'parameters and locals are C locals)' % rel)
     repo.all_modules()
     thorough = ck.tier == 'thorough'
     # D1 / D2: whole package in both tiers (cheap)
@@ -1229,6 +1879,8 @@ def check(ck):
             if not getattr(fn, 'cy_directives', {}) or fn.cy_directives.get('boundscheck') is not False:
                 continue
             nz += d3_zero_first(ck, 'C19.D3.zero-first', mod, fn, fused)
+            d35_callees(ck, mod, fn, fused)
+            d5_reductions(ck, mod, fn, fused)
             npr += min(check_prange(_PrangeRecheck(ck, mod, fn), 'C19.D5.prange', mod, fn, fused), 1)
     ck.floor('C19.D3.zero-first', nz, 5, 'kernel read-modify-write updates of a buffer cell')
     # counted per kernel: whether a zeroing pass is its own prange loop, a sequential loop or `out[:] = 0`
@@ -1248,11 +1900,18 @@ def check(ck):
                  if m.rel not in rels and m.rel not in OBSERVE_ONLY
                  and '/apps/' not in m.rel and '/data/' not in m.rel]
         d4_effects(ck, other, observe_only=True)
-    d6_globals(ck, [r for r in ANCHORED if r.endswith('.py')] + ['enspara/util/load.py', 'enspara/util/parallel.py'])
+    # every module of the library that computes something: the citation registry (a set of cite keys that only
+    # `enspara.citation` prints) and the command line apps are outside "numerical routine"
+    d6_globals(ck, [m.rel for m in repo.all_modules()
+                    if '/apps/' not in m.rel and '/data/' not in m.rel and '/citation/' not in m.rel])
+    ck.assume('enspara/citation keeps the set of cite keys used so far in a module-level registry by design; it feeds '
+              'no numerical result and is outside C19.D6.module-state')
     ns = d6_process_streams(ck, [m for m in repo.py_modules() if '/apps/' not in m.rel and '/data/' not in m.rel])
     ck.floor('C19.D6.process-stream', ns, 8, 'modules scanned for draws from process-lifetime stream objects')
     nc = d6_derived_caches(ck, [m.rel for m in repo.py_modules() if '/apps/' not in m.rel])
     ck.floor('C19.D6.derived-cache', nc, 8, 'classes of the package scanned for memoised derived attributes')
+    nf = d6_memoised_functions(ck, [m for m in repo.py_modules() if '/apps/' not in m.rel and '/data/' not in m.rel])
+    ck.floor('C19.D6.memoised-function', nf, 8, 'modules scanned for memoised functions with a shared mutable result')
     # added after the bug hunt (DESIGN.md 11.2b): iterative eigensolvers must be started from a fixed vector
     from .msm_common import check_random_start
     n7 = check_random_start(ck, 'C19.D7.solver-start', [m for m in repo.py_modules() if '/apps/' not in m.rel])
